@@ -75,3 +75,32 @@ package minter
 //@   loop 0 invariant sum: blockchain.totalPower != nil && fresh(blockchain.totalPower) && blockchain.totalPower.val == old(presentPower(vals, rangeindex + 1, blockchain))
 //@   loop 0 invariant dom: fresh(blockchain.validatorsPowers) && forall i int :: 0 <= i && i < len(vals) ==> ((vals[i].PubKey in blockchain.validatorsPowers) <==> (i <= rangeindex && old(isPresent(vals[i], blockchain))))
 //@   loop 0 invariant pow: forall i int :: 0 <= i && i <= rangeindex && old(isPresent(vals[i], blockchain)) ==> blockchain.validatorsPowers[vals[i].PubKey] != nil && fresh(blockchain.validatorsPowers[vals[i].PubKey]) && blockchain.validatorsPowers[vals[i].PubKey] != blockchain.totalPower && blockchain.validatorsPowers[vals[i].PubKey].val == old(vals[i].totalStake.val)
+
+//@ # ---------------------------------------------------------------- validator powers (C17)
+//@ ghost anyVal() int
+//@ # C17: the validator set handed to the consensus engine is the candidate module's choice (at most 64, see
+//@ # GetNewCandidates), each member with power floor(stake * 10^8 / sum of the chosen stakes) but at least 1, in the
+//@ # same order as the list installed in the validators module
+//@ func (*Blockchain).updateValidators
+//@   serves C17
+//@   let cs = blockchain.stateDeliver.Candidates
+//@   let vl = blockchain.stateDeliver.Validators.list
+//@   let i = anyVal()
+//@   let ch = chosen(cs)
+//@   let total = candSum(ch, len(ch), cs)
+//@   requires blockchain != nil && blockchain.stateDeliver != nil && blockchain.stateDeliver.Candidates != nil && blockchain.stateDeliver.Validators != nil && blockchain.appDB != nil
+//@   assumespre (*Validators).SetNewValidators: state invariants of the validator list (records present, distinct consensus addresses) and of the chosen candidates
+//@   assumespre (*Candidates).GetNewCandidates: state invariant: the ranked candidate list holds complete records
+//@   ensures atmost64: len(vl) <= 64 && len(blockchain.appDB.validators) == len(vl) && len(ch) == len(vl)
+//@   ensures samekeys: 0 <= i && i < len(vl) ==> vl[i].PubKey == ch[i].PubKey
+//@   ensures power: 0 <= i && i < len(ch) && total > 0 ==> blockchain.appDB.validators[i].Power == max(1, div(totalStakeOf(cs, ch[i].PubKey) * 100000000, total))
+//@   local newCandidates []*candidates.Candidate
+//@   local newValidators []types.ValidatorUpdate
+//@   loop 0 invariant idx: -1 <= rangeindex && (rangeindex < len(newCandidates) || (rangeindex == -1 && len(newCandidates) == 0))
+//@   loop 0 invariant sum: totalPower != nil && fresh(totalPower) && totalPower.val == candSum(newCandidates, rangeindex + 1, cs)
+//@   loop 0 invariant below: totalPower.val >= 0 && forall k int :: 0 <= k && k <= rangeindex ==> 0 <= totalStakeOf(cs, newCandidates[k].PubKey) && totalStakeOf(cs, newCandidates[k].PubKey) <= totalPower.val
+//@   loop 1 invariant below: forall k int :: 0 <= k && k < len(newCandidates) ==> 0 <= totalStakeOf(cs, newCandidates[k].PubKey) && totalStakeOf(cs, newCandidates[k].PubKey) <= totalPower.val
+//@   loop 1 invariant idx: -1 <= rangeindex && (rangeindex < len(newCandidates) || (rangeindex == -1 && len(newCandidates) == 0)) && len(newValidators) == rangeindex + 1
+//@   loop 1 invariant powers: 0 <= i && i <= rangeindex && totalPower.val > 0 ==> newValidators[i].Power == max(1, div(totalStakeOf(cs, newCandidates[i].PubKey) * 100000000, totalPower.val))
+//@   loop 1 invariant total: totalPower.val == candSum(newCandidates, len(newCandidates), cs)
+//@ spec candSum(l []*candidates.Candidate, n int, c *candidates.Candidates) int = n <= 0 ? 0 : candSum(l, n-1, c) + totalStakeOf(c, l[n-1].PubKey)
